@@ -80,7 +80,14 @@ func notifyOps(p *Chan) {
 }
 
 func ChanClose(p *Chan) {
+	if p == nil {
+		panic(plainError("close of nil channel"))
+	}
 	p.mutex.Lock()
+	if p.close {
+		p.mutex.Unlock()
+		panic(plainError("close of closed channel"))
+	}
 	p.close = true
 	notifyOps(p)
 	p.mutex.Unlock()
@@ -130,7 +137,7 @@ func ChanSend(p *Chan, v unsafe.Pointer, eltSize int) bool {
 		}
 		if p.close {
 			p.mutex.Unlock()
-			return false
+			panic(plainError("send on closed channel"))
 		}
 		if p.data != nil {
 			c.Memcpy(p.data, v, uintptr(eltSize))
@@ -142,7 +149,7 @@ func ChanSend(p *Chan, v unsafe.Pointer, eltSize int) bool {
 		}
 		if p.close {
 			p.mutex.Unlock()
-			return false
+			panic(plainError("send on closed channel"))
 		}
 		off := (p.getp + p.len) % n
 		c.Memcpy(c.Advance(p.data, off*eltSize), v, uintptr(eltSize))
